@@ -7,7 +7,8 @@
 From Coq Require Import ZArith NArith Lia List Bool ZifyBool.
 From SW Require Import base.GoInt.
 From SW Require gen.Funcs.
-From SW Require model.Needle model.EcIndex model.EC model.Ttl model.Codecs model.VolPlanner model.TopoPlace model.EcBalance model.TopoCount.
+From SW Require gen.Funcs5.
+From SW Require model.Needle model.EcIndex model.EC model.Ttl model.Codecs model.VolPlanner model.TopoPlace model.EcBalance model.TopoCount model.NeedleMap model.Chunks model.S3Paths.
 Import ListNotations.
 Local Open Scope Z_scope.
 
@@ -564,4 +565,423 @@ Proof.
   specialize (H p). assert (N.size (Npos p) <= 32)%N; [|lia].
   rewrite N.size_log2 by lia. assert (N.log2 (Npos p) < 32)%N; [|lia].
   apply N.log2_lt_pow2; [lia|]. exact Hn.
+Qed.
+
+
+(* ================= anonymous literals (harness/cmd/funcgen/lits.go) =================
+   Lit_* are extracted from the Go function bodies by a structural pattern on every run.
+   Where the model has a NAMED definition the tie is an equation with it; where the model uses
+   the number inline in a short definition the tie restates that definition with the extracted
+   literal in place of the number (reflexivity); the remaining ones are PINNED to the value the
+   model / check / harness files use inline (named in the comment), so that a change of the
+   literal in the source breaks an obligation here and points at the place to review. *)
+
+(* CheckAndFixVolumeDataIntegrity: `for i := 1; i <= 10 && ...` - the window of verified entries *)
+Lemma lit_CheckAndFix_window_proof : forall es recs len,
+  EcIndex.dm_check_fix es recs len =
+  EcIndex.dm_cf_loop (Z.to_nat Funcs.Lit_CheckAndFix_window) (rev es) (N.of_nat (length es) - 1) recs len (N.of_nat (length es)).
+Proof. reflexivity. Qed.
+(* VolumeCrash.check_and_fix calls `check_loop 10` inside a Section: pinned *)
+Lemma lit_CheckAndFix_window_pin_proof : Funcs.Lit_CheckAndFix_window = 10.
+Proof. reflexivity. Qed.
+
+Lemma lit_lookback_proof : Funcs.Lit_CompactSection_Set_lookback = Z.of_nat NeedleMap.lookback.
+Proof. reflexivity. Qed.
+
+Lemma lit_sb_extra_max_proof : Funcs.Lit_SuperBlock_Bytes_extraMax = Z.of_N Codecs.sb_extra_max.
+Proof. reflexivity. Qed.
+
+Lemma lit_max_int64_proof :
+  Funcs.Lit_ViewFromVisibleIntervals_toEnd = Z.of_N Chunks.max_int64 /\
+  Funcs.Lit_ViewFromChunks_stop = Z.of_N Chunks.max_int64.
+Proof. split; reflexivity. Qed.
+
+Lemma lit_buckets_path_proof : Funcs.Lit_startS3Server_bucketsPath = S3Paths.buckets_path.
+Proof. reflexivity. Qed.
+
+(* fmt.Sprintf with %s verbs only: substitute the arguments in order *)
+Definition pct : Ascii.ascii := Ascii.ascii_of_N 37.   (* % *)
+Definition ess : Ascii.ascii := Ascii.ascii_of_N 115.  (* s *)
+Fixpoint subst_s (f : String.string) (args : list String.string) : String.string :=
+  match f with
+  | String.EmptyString => String.EmptyString
+  | String.String c r =>
+      match r with
+      | String.String c2 r' =>
+          if Ascii.eqb c pct && Ascii.eqb c2 ess then
+            match args with
+            | a :: rest => String.append a (subst_s r' rest)
+            | nil => String.String c (String.String c2 (subst_s r' nil))
+            end
+          else String.String c (subst_s r args)
+      | String.EmptyString => String.String c String.EmptyString
+      end
+  end.
+
+Lemma lit_uploads_folder_proof : forall b : String.string,
+  S3Paths.uploads_dir b = subst_s Funcs.Lit_genUploadsFolder_format [S3Paths.buckets_path; b].
+Proof.
+  intros b. unfold S3Paths.uploads_dir, S3Paths.bucket_dir, S3Paths.buckets_path. cbn.
+  reflexivity.
+Qed.
+
+(* ParseNeedleIdCookie: CookieSize*2 and (NeedleIdSize+CookieSize)*2, folded from the named constants *)
+Lemma lit_parse_key_cookie_proof : forall s : list N,
+  Codecs.parse_key_cookie s =
+  if (Needle.len s <=? Z.to_N Funcs.Lit_ParseNeedleIdCookie_minLen)%N then None
+  else if (Z.to_N Funcs.Lit_ParseNeedleIdCookie_maxLen <? Needle.len s)%N then None
+  else
+    let split := (Needle.len s - Z.to_N Funcs.Lit_ParseNeedleIdCookie_cookieLen)%N in
+    match Codecs.parse_uint_hex 64 (Needle.takeN split s) with
+    | None => None
+    | Some key => match Codecs.parse_uint_hex 32 (Needle.dropN split s) with
+                  | None => None
+                  | Some cookie => Some (key, cookie)
+                  end
+    end.
+Proof. reflexivity. Qed.
+
+(* pinned literals: the files that use the number inline are named *)
+Lemma lit_pins_proof :
+  (* C05: harness/check pass compact_map.go `batch` inside every case (c_batch) *)
+  Funcs.Lit_needle_map_batch = 100000 /\
+  (* C06: WriteEcFiles / RebuildEcFiles buffer 256 KiB (check/C06.v, harness c06: 262144) *)
+  Funcs.Lit_WriteEcFiles_bufferSize = 262144 /\ Funcs.Lit_RebuildEcFiles_bufferSize = 262144 /\
+  (* C38: VolumeConc.step LDecide (4194304 <=? bytes, 128 <=? requests) and LSend (queue capacity 128) *)
+  Funcs.Lit_startWorker_maxBytes = 4194304 /\ Funcs.Lit_startWorker_maxRequests = 128 /\
+  Funcs.Lit_NewVolume_chanCapacity = 128 /\
+  (* C18: FilerNS rename lists a directory in pages of 1024 (a directory has < 1024 children in the model) *)
+  Funcs.Lit_moveFolderSubEntries_pageSize = 1024 /\
+  (* C22: LogBuf.st has 3 sealed slots (PreviousBufferCount); BufferSize is the model parameter c; flushChan 256 *)
+  Funcs.Lit_log_buffer_PreviousBufferCount = 3 /\ Funcs.Lit_log_buffer_BufferSize = 4194304 /\
+  Funcs.Lit_NewLogBuffer_flushChanCapacity = 256 /\
+  (* C14: Vacuum.CkOver = "garbage ratio >= threshold" (operator code 5 = >=); timeouts minutes*(limit/1024/1024/1000+1), x3 for compaction *)
+  Funcs.Lit_batchVacuumVolumeCheck_cmp = 5 /\ Funcs.Lit_batchVacuumVolumeCheck_timeoutDivisor = 1000 /\
+  Funcs.Lit_batchVacuumVolumeCompact_timeoutFactor = 3.
+Proof. repeat split; reflexivity. Qed.
+
+
+(* ================= offset width: 4-byte build (gen/Funcs.v) and 5BytesOffset build (gen/Funcs5.v) =================
+   Funcs5 is translated from the files selected by the build tag 5BytesOffset.  The width-indexed
+   model functions are Codecs.to_offset_w / off_parse / max_volume_size (C08; EcIndex and the index
+   codecs of C03/C05/C07 take the width as a parameter of every case). *)
+
+Definition offset_units5 (o : Funcs5.Offset) : Z :=
+  Funcs5.Offset_b0 o + 256 * Funcs5.Offset_b1 o + 65536 * Funcs5.Offset_b2 o + 16777216 * Funcs5.Offset_b3 o
+  + 4294967296 * Funcs5.Offset_b4 o.
+
+(* every non-negative int64: the 4-byte build truncates offset/8 to uint32, the 5-byte build to 40 bits *)
+Lemma tie_ToOffset_w4_proof : forall a : N, Z.of_N a <= max63 ->
+  offset_units (Funcs.ToOffset (Z.of_N a)) = Z.of_N (Codecs.to_offset_w 4 a).
+Proof.
+  intros a Ha. unfold max63 in Ha. unfold offset_units, Funcs.ToOffset, Funcs.Uint32ToOffset, Codecs.to_offset_w, Codecs.off_limit.
+  cbn [Funcs.Offset_b0 Funcs.Offset_b1 Funcs.Offset_b2 Funcs.Offset_b3
+       Funcs.OffsetLower_b0 Funcs.OffsetLower_b1 Funcs.OffsetLower_b2 Funcs.OffsetLower_b3 N.eqb Pos.eqb].
+  rewrite Z.quot_div_nonneg by lia. rewrite wrap_u32_mod.
+  rewrite !Z.shiftr_div_pow2 by lia. rewrite !wrap_u8_mod.
+  change (2 ^ 8) with 256. change (2 ^ 16) with 65536. change (2 ^ 24) with 16777216.
+  lia.
+Qed.
+
+Lemma tie5_ToOffset_proof : forall a : N, Z.of_N a <= max63 ->
+  offset_units5 (Funcs5.ToOffset (Z.of_N a)) = Z.of_N (Codecs.to_offset_w 5 a) /\
+  0 <= Funcs5.Offset_b0 (Funcs5.ToOffset (Z.of_N a)) < 256 /\ 0 <= Funcs5.Offset_b1 (Funcs5.ToOffset (Z.of_N a)) < 256 /\
+  0 <= Funcs5.Offset_b2 (Funcs5.ToOffset (Z.of_N a)) < 256 /\ 0 <= Funcs5.Offset_b3 (Funcs5.ToOffset (Z.of_N a)) < 256 /\
+  0 <= Funcs5.Offset_b4 (Funcs5.ToOffset (Z.of_N a)) < 256.
+Proof.
+  intros a Ha. unfold max63 in Ha. unfold offset_units5, Funcs5.ToOffset, Codecs.to_offset_w, Codecs.off_limit.
+  cbn [Funcs5.Offset_b0 Funcs5.Offset_b1 Funcs5.Offset_b2 Funcs5.Offset_b3 Funcs5.Offset_b4 Funcs5.OffsetHigher_b4
+       Funcs5.OffsetLower_b0 Funcs5.OffsetLower_b1 Funcs5.OffsetLower_b2 Funcs5.OffsetLower_b3 N.eqb Pos.eqb].
+  rewrite Z.quot_div_nonneg by lia.
+  rewrite !Z.shiftr_div_pow2 by lia. rewrite !wrap_u8_mod.
+  change (2 ^ 8) with 256. change (2 ^ 16) with 65536. change (2 ^ 24) with 16777216. change (2 ^ 32) with 4294967296.
+  lia.
+Qed.
+
+Lemma tie5_Offset_ToActualOffset_proof : forall b4 b3 b2 b1 b0,
+  0 <= b0 < 256 -> 0 <= b1 < 256 -> 0 <= b2 < 256 -> 0 <= b3 < 256 -> 0 <= b4 < 256 ->
+  Funcs5.Offset_ToActualOffset (Funcs5.mkOffset b4 b3 b2 b1 b0) = 8 * offset_units5 (Funcs5.mkOffset b4 b3 b2 b1 b0).
+Proof.
+  intros b4 b3 b2 b1 b0 H0 H1 H2 H3 H4. unfold Funcs5.Offset_ToActualOffset, offset_units5.
+  cbn [Funcs5.Offset_b0 Funcs5.Offset_b1 Funcs5.Offset_b2 Funcs5.Offset_b3 Funcs5.Offset_b4].
+  rewrite !Z.shiftl_mul_pow2 by lia.
+  change (2 ^ 8) with 256. change (2 ^ 16) with 65536. change (2 ^ 24) with 16777216. change (2 ^ 32) with 4294967296.
+  unwrap. lia.
+Qed.
+
+(* below MaxPossibleVolumeSize of the 5-byte build (8 TiB) writing and reading an offset is off -> 8*(off/8) *)
+Lemma tie5_Offset_roundtrip_proof : forall a : N, (a < Codecs.max_volume_size 5)%N ->
+  Funcs5.Offset_ToActualOffset (Funcs5.ToOffset (Z.of_N a)) = 8 * (Z.of_N a / 8).
+Proof.
+  intros a Ha. change (Codecs.max_volume_size 5) with 8796093022208%N in Ha.
+  destruct (tie5_ToOffset_proof a) as (E & H0 & H1 & H2 & H3 & H4); [unfold max63; lia|].
+  destruct (Funcs5.ToOffset (Z.of_N a)) as [b4 b3 b2 b1 b0] eqn:Eo.
+  cbn [Funcs5.Offset_b0 Funcs5.Offset_b1 Funcs5.Offset_b2 Funcs5.Offset_b3 Funcs5.Offset_b4] in H0, H1, H2, H3, H4.
+  rewrite tie5_Offset_ToActualOffset_proof by assumption. rewrite E.
+  unfold Codecs.to_offset_w, Codecs.off_limit. cbn [N.eqb Pos.eqb]. lia.
+Qed.
+
+Lemma tie5_Offset_IsZero_proof : forall a : N, Z.of_N a <= max63 ->
+  Funcs5.Offset_IsZero (Funcs5.ToOffset (Z.of_N a)) = (Codecs.to_offset_w 5 a =? 0)%N.
+Proof.
+  intros a Ha. destruct (tie5_ToOffset_proof a Ha) as (E & H0 & H1 & H2 & H3 & H4).
+  destruct (Funcs5.ToOffset (Z.of_N a)) as [b4 b3 b2 b1 b0] eqn:Eo. unfold offset_units5 in E.
+  unfold Funcs5.Offset_IsZero.
+  cbn [Funcs5.Offset_b0 Funcs5.Offset_b1 Funcs5.Offset_b2 Funcs5.Offset_b3 Funcs5.Offset_b4] in *.
+  destruct (N.eqb_spec (Codecs.to_offset_w 5 a) 0) as [Ez|Ez];
+  destruct (Z.eqb_spec b0 0), (Z.eqb_spec b1 0), (Z.eqb_spec b2 0), (Z.eqb_spec b3 0), (Z.eqb_spec b4 0); cbn [andb];
+    try reflexivity; exfalso; lia.
+Qed.
+
+(* BytesToOffset reads bytes[0..3] big endian and (5-byte build) bytes[4] as the high byte: off_parse *)
+Lemma tie_BytesToOffset_w4_proof : forall x0 x1 x2 x3 : N,
+  exists o, Funcs.BytesToOffset [Z.of_N x0; Z.of_N x1; Z.of_N x2; Z.of_N x3] = Some o /\
+            offset_units o = Z.of_N (Codecs.off_parse 4 [x0; x1; x2; x3]).
+Proof.
+  intros. exists (Funcs.mkOffset (Z.of_N x0) (Z.of_N x1) (Z.of_N x2) (Z.of_N x3)). split; [reflexivity|].
+  change (Codecs.off_parse 4 [x0; x1; x2; x3]) with (((((0 * 256 + x0) * 256 + x1) * 256 + x2) * 256 + x3) + 0)%N.
+  unfold offset_units. cbn [Funcs.Offset_b0 Funcs.Offset_b1 Funcs.Offset_b2 Funcs.Offset_b3]. lia.
+Qed.
+
+Lemma tie5_BytesToOffset_proof : forall x0 x1 x2 x3 x4 : N,
+  exists o, Funcs5.BytesToOffset [Z.of_N x0; Z.of_N x1; Z.of_N x2; Z.of_N x3; Z.of_N x4] = Some o /\
+            offset_units5 o = Z.of_N (Codecs.off_parse 5 [x0; x1; x2; x3; x4]).
+Proof.
+  intros. exists (Funcs5.mkOffset (Z.of_N x4) (Z.of_N x0) (Z.of_N x1) (Z.of_N x2) (Z.of_N x3)). split; [reflexivity|].
+  change (Codecs.off_parse 5 [x0; x1; x2; x3; x4]) with (((((0 * 256 + x0) * 256 + x1) * 256 + x2) * 256 + x3) + x4 * 4294967296)%N.
+  unfold offset_units5. cbn [Funcs5.Offset_b0 Funcs5.Offset_b1 Funcs5.Offset_b2 Funcs5.Offset_b3 Funcs5.Offset_b4]. lia.
+Qed.
+(* a slice shorter than the offset width panics *)
+Lemma tie5_BytesToOffset_short_proof : forall b : list Z, (length b < 5)%nat -> Funcs5.BytesToOffset b = None.
+Proof.
+  intros b Hb. unfold Funcs5.BytesToOffset.
+  replace (4 <? Z.of_nat (length b)) with false by (symmetry; apply Z.ltb_ge; lia). reflexivity.
+Qed.
+
+Lemma tie_width_consts_proof :
+  Funcs.Const_OffsetSize = 4 /\ Funcs5.Const_OffsetSize = 5 /\
+  Funcs.Const_MaxPossibleVolumeSize = Z.of_N (Codecs.max_volume_size 4) /\
+  Funcs5.Const_MaxPossibleVolumeSize = Z.of_N (Codecs.max_volume_size 5) /\
+  Funcs.Const_NeedleMapEntrySize = Z.of_N (EcIndex.entry_size 4) /\
+  Funcs5.Const_NeedleMapEntrySize = Z.of_N (EcIndex.entry_size 5).
+Proof. repeat split; reflexivity. Qed.
+
+(* ================= weed/util/bytes.go: BytesToUint32 / BytesToUint64 (big endian, loops over a slice) ================= *)
+
+Definition zdec (l : list Z) : Z := fold_left (fun a b => a * 256 + b) l 0.
+Definition bytes_ok (l : list Z) : Prop := Forall (fun x => 0 <= x < 256) l.
+
+Lemma zdec_snoc : forall l y, zdec (l ++ [y]) = zdec l * 256 + y.
+Proof. intros. unfold zdec. rewrite fold_left_app. reflexivity. Qed.
+
+Lemma zdec_of_N : forall l : list N, zdec (map Z.of_N l) = Z.of_N (Needle.be_decode l).
+Proof.
+  intros l. unfold zdec, Needle.be_decode.
+  change 0 with (Z.of_N 0) at 1. generalize 0%N as acc.
+  induction l as [|x l IH]; intros acc; cbn [map fold_left]; [reflexivity|].
+  rewrite <- IH. f_equal. lia.
+Qed.
+
+Lemma firstn_snoc_nth : forall (l : list Z) (i : nat), (i < length l)%nat ->
+  firstn (S i) l = firstn i l ++ [nth i l 0].
+Proof.
+  induction l as [|x l IH]; intros i Hi; cbn [length] in Hi; [lia|].
+  destruct i as [|i]; [reflexivity|].
+  change (x :: firstn (S i) l = (x :: firstn i l) ++ [nth i l 0]). rewrite IH by lia. reflexivity.
+Qed.
+
+Lemma bytes_ok_firstn : forall l i, bytes_ok l -> bytes_ok (firstn i l).
+Proof.
+  unfold bytes_ok. induction l as [|x l IH]; intros i H; destruct i; cbn [firstn]; try constructor.
+  - inversion H; assumption.
+  - apply IH. inversion H; assumption.
+Qed.
+
+Lemma bytes_ok_nth : forall l i, bytes_ok l -> 0 <= nth i l 0 < 256.
+Proof.
+  unfold bytes_ok. induction l as [|x l IH]; intros i H; destruct i; cbn [nth]; try lia.
+  - inversion H; assumption.
+  - apply IH. inversion H; assumption.
+Qed.
+
+Lemma zdec_bound : forall l, bytes_ok l -> 0 <= zdec l < 256 ^ Z.of_nat (length l).
+Proof.
+  induction l as [|y l IH] using rev_ind; intros H.
+  - cbn. lia.
+  - rewrite zdec_snoc, app_length. cbn [length]. rewrite Nat.add_1_r, Nat2Z.inj_succ, Z.pow_succ_r by lia.
+    assert (Hl : bytes_ok l) by (unfold bytes_ok in *; apply Forall_app in H; tauto).
+    assert (Hy : 0 <= y < 256) by (unfold bytes_ok in H; apply Forall_app in H; destruct H as [_ H]; inversion H; assumption).
+    specialize (IH Hl). lia.
+Qed.
+
+Lemma pow256_mono : forall a b : nat, (a <= b)%nat -> 256 ^ Z.of_nat a <= 256 ^ Z.of_nat b.
+Proof. intros. apply Z.pow_le_mono_r; lia. Qed.
+
+Lemma BytesToUint32_loop_tie : forall (l : list Z), bytes_ok l -> (1 <= length l <= 4)%nat ->
+  forall (fuel i : nat), (i <= length l - 1)%nat -> (length l - i <= fuel)%nat ->
+  Funcs.BytesToUint32_loop1 fuel l (zdec (firstn i l) * 256) (Z.of_nat (length l)) (Z.of_nat i) = Some (zdec l).
+Proof.
+  intros l Hok Hlen. induction fuel as [|f IH]; intros i Hi Hf; [lia|].
+  cbn [Funcs.BytesToUint32_loop1].
+  rewrite (wrap_u64_id (Z.of_nat (length l) - 1)) by lia.
+  pose proof (zdec_bound (firstn (S i) l) (bytes_ok_firstn l (S i) Hok)) as Hb.
+  rewrite firstn_length, (firstn_snoc_nth l i) in Hb by lia. rewrite zdec_snoc in Hb.
+  pose proof (bytes_ok_nth l i Hok) as Hn.
+  rewrite Nat2Z.id.
+  replace ((0 <=? Z.of_nat i) && (Z.of_nat i <? Z.of_nat (length l))) with true
+    by (symmetry; apply andb_true_iff; split; [apply Z.leb_le | apply Z.ltb_lt]; lia).
+  destruct (Z.of_nat i <? Z.of_nat (length l) - 1) eqn:E.
+  - apply Z.ltb_lt in E.
+    assert (Hp : 256 ^ Z.of_nat (Nat.min (S i) (length l)) <= 256 ^ Z.of_nat 3) by (apply pow256_mono; lia).
+    change (256 ^ Z.of_nat 3) with 16777216 in Hp.
+    rewrite (wrap_u32_id (zdec (firstn i l) * 256 + nth i l 0)) by lia.
+    rewrite Z.shiftl_mul_pow2 by lia. change (2 ^ 8) with 256.
+    rewrite (wrap_u32_id ((zdec (firstn i l) * 256 + nth i l 0) * 256)) by lia.
+    rewrite (wrap_u64_id (Z.of_nat i + 1)) by lia.
+    replace (Z.of_nat i + 1) with (Z.of_nat (S i)) by lia.
+    rewrite <- zdec_snoc, <- firstn_snoc_nth by lia.
+    apply IH; lia.
+  - apply Z.ltb_ge in E. assert (Ei : i = (length l - 1)%nat) by lia.
+    assert (Hp : 256 ^ Z.of_nat (Nat.min (S i) (length l)) <= 256 ^ Z.of_nat 4) by (apply pow256_mono; lia).
+    change (256 ^ Z.of_nat 4) with 4294967296 in Hp.
+    replace (Z.of_nat (length l) - 1) with (Z.of_nat i) by lia.
+    replace ((0 <=? Z.of_nat i) && (Z.of_nat i <? Z.of_nat (length l))) with true
+      by (symmetry; apply andb_true_iff; split; [apply Z.leb_le | apply Z.ltb_lt]; lia).
+    rewrite Nat2Z.id.
+    rewrite (wrap_u32_id (zdec (firstn i l) * 256 + nth i l 0)) by lia.
+    rewrite <- zdec_snoc, <- firstn_snoc_nth by lia.
+    replace (S i) with (length l) by lia. rewrite firstn_all. reflexivity.
+Qed.
+
+Lemma tie_BytesToUint32_proof : forall (l : list N) (fuel : nat),
+  Forall (fun x => (x < 256)%N) l -> (1 <= length l <= 4)%nat -> (length l <= fuel)%nat ->
+  Funcs.BytesToUint32 fuel (map Z.of_N l) = Some (Z.of_N (Needle.be_decode l)).
+Proof.
+  intros l fuel Hb Hlen Hf. unfold Funcs.BytesToUint32.
+  assert (Hok : bytes_ok (map Z.of_N l)).
+  { unfold bytes_ok. apply Forall_map. eapply Forall_impl; [|exact Hb]. cbn. intros; lia. }
+  assert (Hl : length (map Z.of_N l) = length l) by apply map_length.
+  rewrite (wrap_u64_id (Z.of_nat (length (map Z.of_N l)))) by lia.
+  rewrite <- zdec_of_N.
+  apply (BytesToUint32_loop_tie (map Z.of_N l) Hok) with (i := 0%nat); lia.
+Qed.
+Lemma BytesToUint64_loop_tie : forall (l : list Z), bytes_ok l -> (1 <= length l <= 8)%nat ->
+  forall (fuel i : nat), (i <= length l - 1)%nat -> (length l - i <= fuel)%nat ->
+  Funcs.BytesToUint64_loop1 fuel l (zdec (firstn i l) * 256) (Z.of_nat (length l)) (Z.of_nat i) = Some (zdec l).
+Proof.
+  intros l Hok Hlen. induction fuel as [|f IH]; intros i Hi Hf; [lia|].
+  cbn [Funcs.BytesToUint64_loop1].
+  rewrite (wrap_u64_id (Z.of_nat (length l) - 1)) by lia.
+  pose proof (zdec_bound (firstn (S i) l) (bytes_ok_firstn l (S i) Hok)) as Hb.
+  rewrite firstn_length, (firstn_snoc_nth l i) in Hb by lia. rewrite zdec_snoc in Hb.
+  pose proof (bytes_ok_nth l i Hok) as Hn.
+  rewrite Nat2Z.id.
+  replace ((0 <=? Z.of_nat i) && (Z.of_nat i <? Z.of_nat (length l))) with true
+    by (symmetry; apply andb_true_iff; split; [apply Z.leb_le | apply Z.ltb_lt]; lia).
+  destruct (Z.of_nat i <? Z.of_nat (length l) - 1) eqn:E.
+  - apply Z.ltb_lt in E.
+    assert (Hp : 256 ^ Z.of_nat (Nat.min (S i) (length l)) <= 256 ^ Z.of_nat 7) by (apply pow256_mono; lia).
+    change (256 ^ Z.of_nat 7) with 72057594037927936 in Hp.
+    rewrite (wrap_u64_id (zdec (firstn i l) * 256 + nth i l 0)) by lia.
+    rewrite Z.shiftl_mul_pow2 by lia. change (2 ^ 8) with 256.
+    rewrite (wrap_u64_id ((zdec (firstn i l) * 256 + nth i l 0) * 256)) by lia.
+    rewrite (wrap_u64_id (Z.of_nat i + 1)) by lia.
+    replace (Z.of_nat i + 1) with (Z.of_nat (S i)) by lia.
+    rewrite <- zdec_snoc, <- firstn_snoc_nth by lia.
+    apply IH; lia.
+  - apply Z.ltb_ge in E. assert (Ei : i = (length l - 1)%nat) by lia.
+    assert (Hp : 256 ^ Z.of_nat (Nat.min (S i) (length l)) <= 256 ^ Z.of_nat 8) by (apply pow256_mono; lia).
+    change (256 ^ Z.of_nat 8) with 18446744073709551616 in Hp.
+    replace (Z.of_nat (length l) - 1) with (Z.of_nat i) by lia.
+    replace ((0 <=? Z.of_nat i) && (Z.of_nat i <? Z.of_nat (length l))) with true
+      by (symmetry; apply andb_true_iff; split; [apply Z.leb_le | apply Z.ltb_lt]; lia).
+    rewrite Nat2Z.id.
+    rewrite (wrap_u64_id (zdec (firstn i l) * 256 + nth i l 0)) by lia.
+    rewrite <- zdec_snoc, <- firstn_snoc_nth by lia.
+    replace (S i) with (length l) by lia. rewrite firstn_all. reflexivity.
+Qed.
+
+Lemma tie_BytesToUint64_proof : forall (l : list N) (fuel : nat),
+  Forall (fun x => (x < 256)%N) l -> (1 <= length l <= 8)%nat -> (length l <= fuel)%nat ->
+  Funcs.BytesToUint64 fuel (map Z.of_N l) = Some (Z.of_N (Needle.be_decode l)).
+Proof.
+  intros l fuel Hb Hlen Hf. unfold Funcs.BytesToUint64.
+  assert (Hok : bytes_ok (map Z.of_N l)).
+  { unfold bytes_ok. apply Forall_map. eapply Forall_impl; [|exact Hb]. cbn. intros; lia. }
+  assert (Hl : length (map Z.of_N l) = length l) by apply map_length.
+  rewrite (wrap_u64_id (Z.of_nat (length (map Z.of_N l)))) by lia.
+  rewrite <- zdec_of_N.
+  apply (BytesToUint64_loop_tie (map Z.of_N l) Hok) with (i := 0%nat); lia.
+Qed.
+
+(* types.BytesToSize = Size(BytesToUint32(bytes)): the int32 reading of the 4 stored bytes *)
+Lemma tie_BytesToSize_proof : forall (l : list N) (fuel : nat),
+  Forall (fun x => (x < 256)%N) l -> (1 <= length l <= 4)%nat -> (length l <= fuel)%nat ->
+  Funcs.BytesToSize fuel (map Z.of_N l) = Some (EcIndex.size_of_u32 (Needle.be_decode l)).
+Proof.
+  intros l fuel Hb Hlen Hf. unfold Funcs.BytesToSize. rewrite tie_BytesToUint32_proof by assumption.
+  f_equal. unfold EcIndex.size_of_u32, EcIndex.two31.
+  assert (Hr : 0 <= Z.of_N (Needle.be_decode l) < 4294967296).
+  { rewrite <- zdec_of_N.
+    assert (Hok : bytes_ok (map Z.of_N l)).
+    { unfold bytes_ok. apply Forall_map. eapply Forall_impl; [|exact Hb]. cbn. intros; lia. }
+    pose proof (zdec_bound _ Hok) as Hz. rewrite map_length in Hz.
+    assert (Hp : 256 ^ Z.of_nat (length l) <= 256 ^ Z.of_nat 4) by (apply pow256_mono; lia).
+    change (256 ^ Z.of_nat 4) with 4294967296 in Hp. lia. }
+  rewrite wrap_s32_of_u32 by exact Hr.
+  destruct (Z.ltb_spec (Z.of_N (Needle.be_decode l)) 2147483648), (N.ltb_spec (Needle.be_decode l) 2147483648); lia.
+Qed.
+
+Lemma tie_BytesToNeedleId_proof : forall (l : list N) (fuel : nat),
+  Forall (fun x => (x < 256)%N) l -> (1 <= length l <= 8)%nat -> (length l <= fuel)%nat ->
+  Funcs.BytesToNeedleId fuel (map Z.of_N l) = Some (Z.of_N (Needle.be_decode l)).
+Proof. intros. unfold Funcs.BytesToNeedleId. rewrite tie_BytesToUint64_proof by assumption. reflexivity. Qed.
+
+Lemma Forall_firstn_N : forall (P : N -> Prop) (l : list N) (n : nat), Forall P l -> Forall P (firstn n l).
+Proof.
+  induction l as [|x l IH]; intros n H; destruct n; cbn [firstn]; try constructor.
+  - inversion H; assumption.
+  - apply IH. inversion H; assumption.
+Qed.
+
+(* BytesToCookie reads bytes[0:4] *)
+Lemma tie_BytesToCookie_proof : forall (l : list N) (fuel : nat),
+  Forall (fun x => (x < 256)%N) l -> (4 <= length l)%nat -> (4 <= fuel)%nat ->
+  Funcs.BytesToCookie fuel (map Z.of_N l) = Some (Z.of_N (Needle.be_decode (firstn 4 l))).
+Proof.
+  intros l fuel Hb Hlen Hf. unfold Funcs.BytesToCookie.
+  rewrite map_length.
+  replace (((0 <=? 0) && (0 <=? 4)) && (4 <=? Z.of_nat (length l))) with true
+    by (symmetry; cbn [Z.leb andb]; apply Z.leb_le; lia).
+  change (Z.to_nat (4 - 0)) with 4%nat. change (Z.to_nat 0) with 0%nat. cbn [skipn].
+  rewrite firstn_map.
+  rewrite tie_BytesToUint32_proof; [reflexivity | | rewrite firstn_length; lia | rewrite firstn_length; lia].
+  apply Forall_firstn_N. exact Hb.
+Qed.
+
+(* ShardBits.ShardIds: `for i := ShardId(0); i < TotalShardsCount; i++ { if b.HasShardId(i) { ret = append(ret, i) } }` *)
+Lemma ShardIds_loop_tie : forall (b : N) (k i fuel : nat) (acc : list Z),
+  (i + k = 14)%nat -> (k + 1 <= fuel)%nat ->
+  Funcs.ShardBits_ShardIds_loop1 fuel (Z.of_N b) acc (Z.of_nat i) =
+  Some (acc ++ map Z.of_N (filter (EcBalance.has b) (map N.of_nat (seq i k)))).
+Proof.
+  intros b. induction k as [|k IH]; intros i fuel acc Hik Hf; (destruct fuel as [|f]; [lia|]);
+    cbn [Funcs.ShardBits_ShardIds_loop1].
+  - replace (Z.of_nat i <? 14) with false by (symmetry; apply Z.ltb_ge; lia).
+    cbn [seq map filter]. rewrite app_nil_r. reflexivity.
+  - replace (Z.of_nat i <? 14) with true by (symmetry; apply Z.ltb_lt; lia).
+    rewrite <- (nat_N_Z i) at 1. rewrite tie_ShardBits_HasShardId_proof by lia.
+    rewrite (wrap_u8_id (Z.of_nat i + 1)) by lia.
+    replace (Z.of_nat i + 1) with (Z.of_nat (S i)) by lia.
+    cbn [seq map filter].
+    destruct (EcBalance.has b (N.of_nat i)).
+    + rewrite IH by lia. cbn [map]. rewrite <- app_assoc. cbn [app]. rewrite nat_N_Z. reflexivity.
+    + rewrite IH by lia. reflexivity.
+Qed.
+
+Lemma tie_ShardBits_ShardIds_proof : forall (b : N) (fuel : nat), (15 <= fuel)%nat ->
+  Funcs.ShardBits_ShardIds fuel (Z.of_N b) = Some (map Z.of_N (EcBalance.shard_ids b)).
+Proof.
+  intros b fuel Hf. unfold Funcs.ShardBits_ShardIds.
+  change 0 with (Z.of_nat 0). rewrite (ShardIds_loop_tie b 14 0) by lia. reflexivity.
 Qed.
